@@ -96,7 +96,10 @@ CHECKS = {
         text="Theorems for every content string: c15_quote_roundtrip (decoding the entities of the map read from the current "
              "source gives the content back when it has no '&'), c15_quote_inert (no markup character survives quoting), "
              "c15_expander_never_inspects_nowiki and c15_finalize_prints_quoted (the expander model passes N cookies through "
-             "both passes untouched and prints exactly the quoted content). The real expand()/parse() are run on nowiki "
+             "both passes untouched and prints exactly the quoted content), c15_preprocess_sets_nowiki_aside_and_deletes_comments "
+             "(Model/Preprocess.v = preprocess_text, compared with the implementation on tag soups: for every arrangement of "
+             "plain text, closed comments, nowiki elements and <nowiki/> the nowiki content is set aside as written and each "
+             "comment disappears with one line break before it). The real expand()/parse() are run on nowiki "
              "bodies over a 58-token alphabet in 9 embedding contexts (decoded output = content, no markup left, hooks never "
              "called, single text node) and on documents with comments vs their comment-free form.",
         note=TRUST + "preprocess_text/_encode/tokenizer are exercised, not modelled; html.unescape on the implementation side.",
